@@ -76,6 +76,39 @@ def none_guard(fnode, arg, allow_null_string):
     return False
 
 
+def _none_decides(fnode, call):
+    """Is the result of this lookup tested for None / truth, or returned -- i.e. can 'absent' and 'explicit None' be conflated downstream?
+    (Passing it to a predicate such as callable() / hasattr() decides nothing about None.)"""
+    parents = {}
+    for p_ in ast.walk(fnode):
+        for ch in ast.iter_child_nodes(p_):
+            parents[id(ch)] = p_
+
+    def decisive(node):
+        par = parents.get(id(node))
+        if par is None:
+            return False
+        if isinstance(par, ast.Compare):
+            others = [par.left] + list(par.comparators)
+            return any(isinstance(o, ast.Constant) and o.value is None for o in others if o is not node)
+        if isinstance(par, (ast.BoolOp, ast.Return, ast.Yield)):
+            return True
+        if isinstance(par, ast.UnaryOp) and isinstance(par.op, ast.Not):
+            return True
+        if isinstance(par, (ast.If, ast.While, ast.IfExp, ast.Assert)) and par.test is node:
+            return True
+        return False
+    if decisive(call):
+        return True
+    par = parents.get(id(call))
+    if isinstance(par, ast.Assign) and len(par.targets) == 1 and isinstance(par.targets[0], ast.Name):
+        v = par.targets[0].id
+        return any(isinstance(n_, ast.Name) and n_.id == v and isinstance(n_.ctx, ast.Load) and decisive(n_) for n_ in ast.walk(fnode))
+    if isinstance(par, ast.Call) and call in par.args:
+        return False          # handed to a function as an argument
+    return True               # any other use: assume the worst
+
+
 def run(ctx):
     ctx.rule("R15.a", "a Parameter class that overrides serialize overrides deserialize in the same class, and vice versa", floor=6)
     ctx.rule("R15.b", "the multiset of strftime formats in serialize equals the multiset of strptime formats in deserialize", floor=4)
@@ -251,6 +284,8 @@ def run(ctx):
                 n_reads += 1
                 if len(c.args) + len(c.keywords) >= 2:
                     ctx.ok("R15.g", f, c, "value-store lookup with an explicit fallback (None stays a value)")
+                elif not _none_decides(f.node, c):
+                    ctx.ok("R15.g", f, c, "value-store lookup whose result is only passed on: nothing is decided on its being None")
                 else:
                     ctx.fail("R15.g", f, c, "`%s` returns None both for 'not set on the instance' and for an explicit None: the fallback to the class default replaces a None the user assigned "
                                             "(serialize_parameters then emits the default instead of null)" % norm(c), key="%s::none-as-absent" % f.qualname,
